@@ -3,12 +3,13 @@
 owner delegation, iterators.py lazy result attributes)."""
 import copy
 import coqlit as L
+import ftutil as U
 
 ID = "C14"
 THEOREMS = ["C14_split_attrs", "C14_swap_attrs", "C14_swizzle_attrs", "C14_flatten_attrs",
             "C14_merge_attrs", "C14_unflatten_attrs", "C14_unflatten_inverse",
             "C14_estimate_in_shape", "C14_build_in_shape", "C14_build_in_active",
-            "C14_build_explicit_shape", "C14_adopt", "C14_active_is_occupancy",
+            "C14_build_explicit_shape", "C14_adopt", "C14_adopt_active", "C14_active_is_occupancy",
             "C14_lazy_attrs", "C14_lazy_project", "C14_model_meets_spec"]
 COQ_IMPORTS = "From FT Require Import Model.Base Model.Obs Model.C14Attrs Model.C14Build Model.C14Check."
 CHECK_VO = ["Model/C14Check.v"]
@@ -45,6 +46,10 @@ EXPLANATION = ("theorems: each transform's carry-over = firstn/skipn re-arrangem
                "unflatten inverts flatten; estimated shapes (calc_shape, Rank.append) bound every stored "
                "coordinate; owned fibers' active range covers their coordinates so iterActive = iterOccupancy; "
                "lazy results carry first operand's id and the documented active range")
+
+# T1: "no empty value".  A default that never occurs as a payload behaves, in the model, exactly like
+# default=None in the implementation (nothing is ever empty); None is handed over for it and mapped back.
+NONE_D = -999983
 
 NAMES = ["M", "K", "N", "P", "Q", "R", "S", "T", "U", "W", "A", "B", "C", "D"]
 STYLES = ["tuple", "pair", "absolute", "relative", "linear"]
@@ -202,7 +207,7 @@ def gen_kx(rng, want=None):
         ids = [r[0] for r in ranks]
         shape = [r[1] for r in ranks]
         auth = rng.random() < 0.7
-        d = rng.choice([0, 0, 3, -2])
+        d = rng.choice([0, 0, 3, -2, NONE_D])
         tree = gen_xtree(rng, shape, d, 0.5)
         ops = []
         plain = [i for i in range(n) if isinstance(ids[i], str) and isinstance(shape[i], int)]
@@ -262,6 +267,11 @@ def gen_kx(rng, want=None):
             x["depth"] = rng.choice(unf)
             mx = min(n_unflat(shape[x["depth"]]), len(ids[x["depth"]]) - 1)
             x["levels"] = rng.randint(1, mx)
+        if d == NONE_D and op == "merge":
+            # mergeRanks sums payloads (merge_fn = sum), and an uncompressed rank hands it the default for
+            # absent coordinates: the default is used arithmetically, so "no empty value" is not offered
+            d = 0
+            tree = gen_xtree(rng, shape, d, 0.5)
         return {"k": "X", "ids": ids, "shape": shape, "auth": auth, "d": d,
                 "fmts": [rng.random() < 0.4 for _ in range(n)], "mut": rng.random() < 0.5,
                 "tree": tree, "x": x}
@@ -274,7 +284,7 @@ def gen_atree(rng, depth, dims, d, own_p, act_p, level_max):
     es = []
     for c in cs:
         if depth == 1:
-            es.append([c, d if rng.random() < 0.15 else rng.randint(1, 9)])
+            es.append([c, (0 if d == NONE_D else d) if rng.random() < 0.15 else rng.randint(1, 9)])
         else:
             es.append([c, gen_atree(rng, depth - 1, dims[1:], d, own_p, act_p, level_max[1:])])
     own = dims[0] + rng.randint(0, 2) if rng.random() < own_p else None
@@ -288,7 +298,7 @@ def gen_atree(rng, depth, dims, d, own_p, act_p, level_max):
 
 def dense_of(rng, dims, d, p_zero):
     if len(dims) == 1:
-        return [d if rng.random() < p_zero else rng.randint(1, 9) for _ in range(dims[0])]
+        return [(0 if d == NONE_D else d) if rng.random() < p_zero else rng.randint(1, 9) for _ in range(dims[0])]
     return [dense_of(rng, dims[1:], d, p_zero) for _ in range(dims[0])]
 
 
@@ -342,7 +352,7 @@ def is_empty_a(t, d):
 def gen_kb_ctor(rng):
     depth = rng.choice([1, 2, 2, 3])
     dims = [rng.randint(1, 4) for _ in range(depth)]
-    d = rng.choice([0, 0, 3])
+    d = rng.choice([0, 0, 3, NONE_D])
     names = NAMES[:]
     rng.shuffle(names)
     ids = names[:depth]
@@ -358,7 +368,7 @@ def gen_kb_ctor(rng):
         return {"k": "B", "via": via, "ids": ids, "shape": given or dims, "d": d,
                 "tree": ref_make_fiber(dense, d), "dense": dense, "given_shape": given}
     if via == "makePopulated":
-        initial = rng.choice([d, 1, 2, 7])
+        initial = rng.choice([0 if d == NONE_D else d, 1, 2, 7])
         dense = dense_of(rng, dims, initial, 1.0)
         return {"k": "B", "via": via, "ids": ids, "shape": dims, "d": d,
                 "tree": ref_make_fiber(dense, d), "initial": initial}
@@ -371,7 +381,7 @@ def gen_kb_ctor(rng):
 def gen_kb(rng):
     depth = rng.choice([1, 2, 2, 3])
     dims = [rng.randint(1, 6) for _ in range(depth)]
-    d = rng.choice([0, 0, 3])
+    d = rng.choice([0, 0, 3, NONE_D])
     names = NAMES[:]
     rng.shuffle(names)
     ids = names[:depth]
@@ -448,49 +458,106 @@ def _tup(x):
     return tuple(_tup(e) for e in x) if isinstance(x, list) else x
 
 
-def _build_x(t):
+def _d_in(d):
+    """the default as handed to the implementation: None for the sentinel, else dressed (T2)"""
+    return None if d == NONE_D else U.dress(d)
+
+
+def _d_out(x):
+    from fibertree import Payload
+    v = Payload.get(x)
+    return NONE_D if v is None else U.undress(v)
+
+
+def _mk_fiber(coords, pays, **kw):
+    """T3: in touch mode every fiber is built in two stages around a battery of read-only queries
+    (all but the last element, U.touch, then the last element by append), so whatever a read
+    remembers (active range, maximum coordinate, shape, default) is stale afterwards"""
     from fibertree import Fiber
+    staged = U.MODE["touch"] and len(coords) >= 2
+    if staged:
+        f = Fiber(list(coords[:-1]), list(pays[:-1]), **kw)
+    else:
+        f = Fiber(list(coords), list(pays), **kw)
+    if U.MODE["touch"]:
+        U.touch(f)
+    if staged:
+        f.append(coords[-1], pays[-1])
+    return f
+
+
+def _retouch(T):
+    """read -> join: the fibers were read before they joined T; read the finished tensor once more"""
+    if not U.MODE["touch"]:
+        return
+    for rank in T.ranks:
+        for f in rank.getFibers():
+            U.touch(f)
+    for q in (lambda: T.getShape(), lambda: T.getDefault(), lambda: T.countValues()):
+        try:
+            q()
+        except Exception:
+            pass
+
+
+def _replace_default(T, d):
+    """T2: a float default that is replaced once after having been read - nothing of the first may survive"""
+    if U.MODE["touch"] and U.MODE["vkind"] == "float" and d != NONE_D:
+        T.setDefault(float(d) + 0.5)
+        for q in (lambda: T.getDefault(), lambda: T.ranks[-1].getDefault(), lambda: T.getRoot().getDefault()):
+            try:
+                q()
+            except Exception:
+                pass
+        T.setDefault(float(d))
+
+
+def _build_x(t):
     coords = [_tup(c) for c, _ in t]
-    pays = [s if isinstance(s, int) else _build_x(s) for _, s in t]
-    return Fiber(coords, pays)
+    pays = [U.dress(s) if isinstance(s, int) else _build_x(s) for _, s in t]
+    return _mk_fiber(coords, pays)
 
 
 def _build_a(t, d0):
-    from fibertree import Fiber
     _, own, act, es = t
     coords = [c for c, _ in es]
-    pays = [s if isinstance(s, int) else _build_a(s, d0) for _, s in es]
+    pays = [U.dress(s) if isinstance(s, int) else _build_a(s, d0) for _, s in es]
     kw = {}
     if own is not None:
         kw["shape"] = own
     if act is not None:
         kw["active_range"] = tuple(act)
     if es and isinstance(es[0][1], int) or not es:
-        kw["default"] = d0
-    return Fiber(coords, pays, **kw)
+        kw["default"] = U.dress(d0)
+    return _mk_fiber(coords, pays, **kw)
 
 
 def _dflt(x):
-    from fibertree import Fiber, Payload
+    from fibertree import Fiber
     if isinstance(x, type) and issubclass(x, Fiber):
         return []
-    return [Payload.get(x)]
+    return [_d_out(x)]
 
 
 def _attrs(T):
-    from fibertree import Payload
     s = T.getShape(authoritative=True)
     return [[enc_rid(r) for r in T.getRankIds()], [] if s is None else [[enc_sh(x) for x in s]],
-            Payload.get(T.getDefault()), [T.getFormat(r) == "U" for r in T.getRankIds()], bool(T.isMutable())]
+            _d_out(T.getDefault()), [T.getFormat(r) == "U" for r in T.getRankIds()], bool(T.isMutable())]
+
+
+def _dense_in(x):
+    return [_dense_in(e) for e in x] if isinstance(x, list) else U.dress(x)
 
 
 def make_tensor(c):
     from fibertree import Tensor
     T = Tensor.fromFiber(rank_ids=copy.deepcopy(c["ids"]), fiber=_build_x(c["tree"]),
-                         shape=[_tup(s) for s in c["shape"]] if c["auth"] else None, default=c["d"])
+                         shape=[_tup(s) for s in c["shape"]] if c["auth"] else None, default=_d_in(c["d"]))
+    _replace_default(T, c["d"])
     for r, f in zip(c["ids"], c["fmts"]):
         T.setFormat(r, "U" if f else "C")
     T.setMutable(c["mut"])
+    _retouch(T)
     return T
 
 
@@ -531,22 +598,25 @@ def run_impl(c):
         if via == "fromFiber":
             root = _build_a(c["tree"], 5)
             est = root.estimateShape()
-            T = Tensor.fromFiber(rank_ids=list(c["ids"]), fiber=root, shape=c["shape"], default=c["d"])
+            T = Tensor.fromFiber(rank_ids=list(c["ids"]), fiber=root, shape=c["shape"], default=_d_in(c["d"]))
+            _replace_default(T, c["d"])
         else:
             if via == "Fiber.fromUncompressed":
                 T = Tensor.fromFiber(rank_ids=list(c["ids"]),
-                                     fiber=Fiber.fromUncompressed(copy.deepcopy(c["dense"]), default=c["d"]),
-                                     shape=None, default=c["d"])
+                                     fiber=Fiber.fromUncompressed(_dense_in(c["dense"]), default=_d_in(c["d"])),
+                                     shape=None, default=_d_in(c["d"]))
             elif via == "fromUncompressed":
-                T = Tensor.fromUncompressed(rank_ids=list(c["ids"]), root=copy.deepcopy(c["dense"]),
-                                            shape=c["given_shape"], default=c["d"])
+                T = Tensor.fromUncompressed(rank_ids=list(c["ids"]), root=_dense_in(c["dense"]),
+                                            shape=c["given_shape"], default=_d_in(c["d"]))
             elif via == "makePopulated":
-                T = Tensor.makePopulated(list(c["ids"]), list(c["shape"]), initial=c["initial"], default=c["d"])
+                T = Tensor.makePopulated(list(c["ids"]), list(c["shape"]), initial=U.dress(c["initial"]),
+                                         default=_d_in(c["d"]))
                 assert T.isMutable()
             else:
                 T = Tensor.fromRandom(rank_ids=list(c["ids"]), shape=list(c["shape"]), density=c["density"],
-                                      interval=6, seed=c["seed"], default=c["d"])
+                                      interval=6, seed=c["seed"], default=_d_in(c["d"]))
             est = T.getRoot().estimateShape()
+        _retouch(T)
         auth = T.getShape(authoritative=True)
         levels = []
         for rank in T.ranks:
@@ -565,13 +635,15 @@ def run_impl(c):
             kw["shape"] = r["own"]
         if r["act"] is not None:
             kw["active_range"] = tuple(r["act"])
-        f = Fiber(list(r["coords"]), [1 for _ in r["coords"]], **kw)
+        f = _mk_fiber(list(r["coords"]), [U.dress(1) for _ in r["coords"]], **kw)
         if r.get("owned") is None:
             f.getRankAttrs().setId(r["id"])
         else:
+            # read -> join: the fiber was read (touch mode) before it becomes the root of a tensor
             sh = r["owned"]["shape"]
             T = Tensor.fromFiber(rank_ids=[r["id"]], fiber=f, shape=None if sh is None else [sh])
             keep.append(T)
+            _retouch(T)
             f = T.getRoot()
         fs.append(f)
     a, b = fs
